@@ -10,6 +10,11 @@ RULE = ("version text V (plain or V.*) x pairs of candidates related by equality
         "equal candidates, local label, complement/closure/cover on candidates that pass the gate - with prereleases None and False; candidates go in as str, "
         "Version or Version-subclass objects; plus model correspondence of contains(); non-trivial = all operands accepted")
 KINDS = ["str", "str", "obj", "sub"]
+ASSUMPTIONS = ["every number in a generated version has far fewer digits than int()'s 4300-digit conversion limit; the model has no digit limit (finding D10: "
+               "beyond it Version() raises InvalidVersion)"]
+TRUSTED_EXTRA = ["candidate objects (str / Version / Version subclass) and the way the object's pre-release setting is made (constructor keyword / attribute "
+                 "assignment) exist on the implementation side only: the model has one representation of each, the run checks the answers do not depend on them",
+                 "the ~= intersection law builds its prefix specifier in the harness; half the time with the exact text SpecLift.prefix_text denotes (epoch written out)"]
 
 
 def spell_epoch(rng, v, ws):
@@ -58,7 +63,7 @@ def streams(rng, tier):
         t1 = gen.spell(rng, c, ws=ws)
         if t2 is None: t2 = gen.spell(rng, c2, ws=ws)
         setting = rng.choice("TTTNF")
-        out.append(Case("laws:" + setting, "law.sp.pair", [vtxt, t1, t2, setting, rng.choice(KINDS)], kind="law"))
+        out.append(Case("laws:" + setting, "law.sp.pair", [vtxt, t1, t2, setting, rng.choice(KINDS), rng.choice("EN")], kind="law"))
         if rng.random() < 0.3:
             op = rng.choice(gen_spec.OPS[:7])
             W = gen_spec.WS_U
